@@ -13,7 +13,8 @@ COQ_CASE_TYPE = "pdocfg_case"
 RULE = ("cases = save_read (attributes + add_variable calls on a fresh RemoteNode map, save() against the Python strict "
         "device from a random prior register state, read() by a second fresh node), read (arbitrary device registers), "
         "from_od (read(from_od=True) of DCF values / defaults, then save and read back), load (RemoteNode.load_configuration "
-        "with an RPDO and a TPDO in the dictionary), history (several node objects and maps on one Network: set / map / "
+        "with an RPDO and a TPDO in the dictionary; half of all dictionaries carry [DeviceInfo] NrOfRXPDO/NrOfTXPDO = the number "
+        "of PDOs present, with sparse PDO numbers), history (several node objects and maps on one Network: set / map / "
         "save / read / device reset / node object moved to another Network / application unsubscribes, the k-th download or "
         "one upload aborted, colliding COB-IDs; after every operation: "
         "outcome, log, attributes, map layout, subscription table of the whole network), indices (PdoMaps layout); "
@@ -75,6 +76,10 @@ def build_od(c, vals=None):
                 r.add_member(m)
             od.add_object(r)
     numbers = sorted(set([c["n"]] + list(odd.get("others", []))))
+    if odd.get("devinfo"):
+        # what an EDS/DCF with [DeviceInfo] NrOfRXPDO / NrOfTXPDO gives: HOW MANY PDOs exist (not which numbers)
+        od.device_information.nr_of_RXPDO = len(numbers)
+        od.device_information.nr_of_TXPDO = len(numbers)
     for tp in (0, 1):
         for n in numbers:
             com, mp = com_map_index(tp, n)
@@ -278,7 +283,7 @@ def impl(c):
         return guarded(f)
     if k == "indices":
         def f():
-            net, node, pm = make_node(dict(c, od=dict(com=[1, 2], nmap=1, objs=[])), None)
+            net, node, pm = make_node(dict(c, od=dict(com=[1, 2], nmap=1, objs=[], devinfo=c.get("devinfo"))), None)
             return [pm.com_record.od.index, pm.map_array.od.index, pm.predefined_cob_id]
         return guarded(f)
     raise ValueError(k)
@@ -757,6 +762,8 @@ def gen_od(rng):
     if rng.random() < 0.08:
         odd["array"] = True
         odd["nmap"] = 1
+    if rng.random() < 0.5:
+        odd["devinfo"] = True
     return odd
 
 
@@ -805,6 +812,8 @@ def gen_save_read(rng, shape="normal"):
         mode = 0
         odd = dict(com=rng.choice([[1, 2, 3, 5, 6]] * 3 + [[1, 2], [1, 2, 3], [1, 2, 5, 6]]), nmap=rng.choice([8, 8, 8, 4, 16]),
                    objs=list(OBJ_POOL))
+        if rng.random() < 0.5:
+            odd["devinfo"] = True
     dobjs = flat_objs(odd["objs"])
     if shape != "valid" and rng.random() < 0.15:
         dobjs = [o for o in dobjs if rng.random() < 0.8]
@@ -959,6 +968,8 @@ def gen_history(rng, tier="quick"):
     reads that fail midway over a map that held another mapping"""
     numbers = rng.choice([[1], [1, 2], [2], [512], [1, 512]])
     odd = dict(com=rng.choice([[1, 2, 3, 5, 6]] * 4 + [[1, 2], [1, 2, 3]]), nmap=8, objs=list(OBJ_POOL), numbers=numbers)
+    if rng.random() < 0.5:
+        odd["devinfo"] = True
     dobjs = flat_objs(odd["objs"])
     mode = rng.choice([0] * 8 + [1, 2])
     nn = rng.choice([1, 2, 2, 3])
@@ -1109,6 +1120,7 @@ def gen_cases(rng, tier):
     for n in (1, 2, 3, 4, 5, 256, 511, 512):
         for tp in (0, 1):
             cases.append(dict(kind="indices", tpdo=tp, n=n, node_id=rng.randint(1, 127)))
+            cases.append(dict(kind="indices", tpdo=tp, n=n, node_id=rng.randint(1, 127), devinfo=True))
     for _ in range(nvalid):
         cases.append(gen_save_read(rng, "valid"))
     for _ in range(nsr):
